@@ -222,6 +222,28 @@ pub fn run(tier: &str) -> i32 {
     rep.nontrivial(n2);
     rep.count("lists_len2_evaluations", n2);
 
+    // thorough: length 3 over the FULL alphabet (None compression, both APIs)
+    if thorough {
+        let n3f: u64 = firsts
+            .par_iter()
+            .map(|f| {
+                let mut n = 0u64;
+                for s in extensions(&[*f], false) {
+                    for t in extensions(&[*f, s], false) {
+                        let l = [*f, s, t];
+                        n += 1;
+                        for (k, d) in check_list(&l, Compression::None) {
+                            rep.violation(k, d, json!({"kind":"list","comp":"none","entries":entries_json(&l)}));
+                        }
+                    }
+                }
+                n
+            })
+            .sum();
+        rep.eval(n3f);
+        rep.nontrivial(n3f);
+        rep.count("lists_len3_full_alphabet", n3f);
+    }
     // length 3 over reduced alphabet
     let firsts_r = extensions(&[], true);
     let n3: u64 = firsts_r
